@@ -245,3 +245,25 @@ CHECKS["C07"] = {
     ],
     "assumptions": ["comments longer than the stdio buffer are C14's subject"],
 }
+
+CHECKS["C08"] = {
+    "engine": "E1",
+    "technique": "exhaustive enumeration of all 2^32 int32/uint32/float patterns and of structured 64-bit/double families through the real typed setter/getter pairs, directly and through write/read",
+    "level_text": "thorough: every one of the 2^32 values of int32 and uint32 and every float bit pattern goes through econf_set<T>Value/econf_get<T>Value "
+                  "and must come back bit-exactly (NaN as NaN); int64/uint64/double are covered by deterministic families (limits +-2, all values with <= 3 set "
+                  "or cleared bits, +-(10^k+d), 2^k+-d, every 16-bit window at every shift, sign x all 2048 exponents x mantissa patterns incl. subnormals, "
+                  "infinities, NaN); all 62 accepted boolean spellings; the same families (and a strided subset of the 32-bit spaces) through "
+                  "econf_writeFile + econf_readFile in batches of 256",
+    "level_note": "exhaustive for the 32-bit direct path in the thorough tier only (quick: every 257th pattern + limits + all 1-2 bit patterns); 64-bit and "
+                  "double spaces by families, not completely; the 2^32 sweep runs without sanitizers (plain -O2), the file path under ASan/UBSan",
+    "quick_exhaustive": False,
+    "rule": "case = (type, bit pattern); all cases are distinct and non-trivial (each is a different stored text); no sampling: VERIF_SEED is not used",
+    "deadline": {"quick": 100, "thorough": 1500},
+    "parts": [
+        {"name": "direct", "harness": "c08", "variant": "plain", "quick": ["--p0", 0, "--p1", 0, "--p2", 257], "thorough": ["--p0", 0, "--p1", 1],
+         "deadline_share": 0.7, "case_timeout": 120, "floor": {"quick": 100000, "thorough": 4000000000}},
+        {"name": "file", "harness": "c08", "variant": "asan", "quick": ["--p0", 1, "--p1", 0, "--p2", 65537], "thorough": ["--p0", 1, "--p1", 0, "--p2", 257],
+         "deadline_share": 0.3, "case_timeout": 120, "floor": {"quick": 100000, "thorough": 1000000}},
+    ],
+    "assumptions": ["glibc strto*/printf are the conversion back end"],
+}
